@@ -116,7 +116,7 @@ Proof. exact (exec_f_keeps logs_inv step_song_logs_inv steps d toks s s2). Qed.
 
 Theorem run_source_logs src s : run_source src = Ok s -> zlen (s_logs s) <= SAKURA_MAX_LOGS.
 Proof.
-  unfold run_source. intros E. apply bind_ok in E. destruct E as ([toks ls] & L & E).
+  unfold run_source, run_source_lang. intros E. apply bind_ok in E. destruct E as ([toks ls] & L & E).
   apply (exec_f_logs_inv _ _ _ _ _) in E; [exact E|].
   unfold song_after_lex. apply li_song_with_ls. apply (lex_log_ok _ _ _ _ _ L). unfold zlen. cbn [lx_logs length]. pose proof consts_sane. lia.
 Qed.
